@@ -1860,6 +1860,13 @@ func (p *scionPacketProcessor) processOHP() disposition {
 		// TODO parameter problem -> invalid path
 		return errorDiscard("error", errMalformedPath)
 	}
+	// The header is rewritten in place below (updateSCIONLayer): the declared lengths have to match
+	// the packet, else the rewritten header lands at the wrong offset or a packet with a bogus
+	// payload length is passed on.
+	if int(s.PayloadLen) != len(s.Payload) ||
+		int(s.HdrLen)*slayers.LineLen != slayers.CmnHdrLen+s.AddrHdrLen()+ohp.Len() {
+		return errorDiscard("error", errBadPacketSize)
+	}
 
 	// OHP leaving our IA
 	if p.ingressFromLink == 0 {
